@@ -590,9 +590,12 @@ def fit_predict_degenerate_bounded_instance(pinned=False):
     from pb_bss.distribution import (CACGMMTrainer, CWMMTrainer, CBMMTrainer, GMMTrainer, VMFMMTrainer, GCACGMMTrainer, VMFCACGMMTrainer)
 
     def make(B):
-        if pinned:        # the input of the known finding, evaluated on every run
+        if pinned == 'cacg-zero-bin':        # the input of a known finding, evaluated on every run
             return {'model': B.choose('model', ['cacgmm']), 'data': B.choose('data', ['zero-bin']), 'K': B.choose('K', [2]), 'it': B.choose('it', [1]),
                     'wca': B.choose('wca', [(-1,)]), 'norm': B.choose('norm', [False]), 'seed': B.choose('seed', [0]), 'd': B.given('d', np.zeros(1))}
+        if pinned == 'cbmm-few-frames':
+            return {'model': B.choose('model', ['cbmm']), 'data': B.choose('data', ['few-frames']), 'K': B.choose('K', [1]), 'it': B.choose('it', [1]),
+                    'wca': B.choose('wca', [(-3,)]), 'norm': B.choose('norm', ['eigenvalue']), 'seed': B.choose('seed', [707]), 'd': B.given('d', np.zeros(1))}
         return {'model': B.choose('model', ['cacgmm', 'cwmm', 'gmm', 'vmfmm', 'gcacgmm', 'vmfcacgmm', 'cacgmm', 'cbmm']),
                 'data': B.choose('data', ['generic', 'zero-bin', 'zero-frames', 'duplicated', 'collinear', 'few-frames', 'tiny', 'huge']),
                 'K': B.choose('K', [1, 2, 3]), 'it': B.choose('it', [1, 2, 4]), 'wca': B.choose('wca', [(-1,), (-3,), (-3, -1)]),
@@ -648,7 +651,7 @@ def fit_predict_degenerate_bounded_instance(pinned=False):
         if p.shape == out['shape'] and np.all(np.isfinite(p)):
             yield 'sums-to-one[%s]' % out['model'], bool(np.allclose(p.sum(-2), 1.0, rtol=0, atol=1e-8))
 
-    return Instance('C01', 'pb_bss.distribution.*Trainer.fit_predict', 'bounded-fit_predict-on-degenerate-data' + ('-pinned-known-finding' if pinned else ''),
+    return Instance('C01', 'pb_bss.distribution.*Trainer.fit_predict', 'bounded-fit_predict-on-degenerate-data' + ('-pinned-known-finding-%s' % pinned if pinned else ''),
                     make, call, ensures, mode='bounded', bounded_n=1 if pinned else 100, frame=False, fixed_seed=bool(pinned))
 
 
@@ -656,4 +659,5 @@ _instances_before_degenerate = instances
 
 
 def instances(tier):       # noqa: F811
-    return _instances_before_degenerate(tier) + [fit_predict_degenerate_bounded_instance(), fit_predict_degenerate_bounded_instance(pinned=True)]
+    return _instances_before_degenerate(tier) + [fit_predict_degenerate_bounded_instance(), fit_predict_degenerate_bounded_instance(pinned='cacg-zero-bin'),
+                                                  fit_predict_degenerate_bounded_instance(pinned='cbmm-few-frames')]
